@@ -353,7 +353,7 @@ func init() {
 		jobs: func(tier string) []*Job {
 			var js []*Job
 			add := func(tpl, ln, pn, cfg, skip, cs int) {
-				js = append(js, &Job{Module: "mcap", Harness: "VC08Stats", Params: P("tpl", tpl, "ln", ln, "pn", pn, "cfg", cfg, "skip", skip, "cs", cs), TimeoutS: 900})
+				js = append(js, &Job{Module: "mcap", Harness: "VC08Stats", Params: P("tpl", tpl, "ln", ln, "pn", pn, "cfg", cfg, "skip", skip, "cs", cs, "idv", 0), TimeoutS: 900})
 			}
 			addc := func(n, per, tail, skip int) {
 				js = append(js, &Job{Module: "mcap", Harness: "VC08StatsChunks", Params: P("n", n, "per", per, "tail", tail, "skip", skip), TimeoutS: 900})
@@ -957,8 +957,8 @@ func init() {
 				max = 8
 			}
 			js = append(js, &Job{Module: "ros1msg", Harness: "VC19ArrayType", Params: P("max", max), TimeoutS: 1800})
-			js = append(js, &Job{Module: "ros1msg", Harness: "VC19Resolve", Params: P("k", 11, "comments", 0, "twice", 0), TimeoutS: 1800})
-			js = append(js, &Job{Module: "ros1msg", Harness: "VC19Resolve", Params: P("k", 11, "comments", 1, "twice", 1), TimeoutS: 1800})
+			js = append(js, &Job{Module: "ros1msg", Harness: "VC19Resolve", Params: P("k", 11, "comments", 0, "twice", 0, "pkgs", 0), TimeoutS: 1800})
+			js = append(js, &Job{Module: "ros1msg", Harness: "VC19Resolve", Params: P("k", 11, "comments", 1, "twice", 1, "pkgs", 0), TimeoutS: 1800})
 			// two packages defining the same short type name (A means p/A in the root and q/A inside q/D): 8-entry sub-menu
 			js = append(js, &Job{Module: "ros1msg", Harness: "VC19Resolve", Params: P("k", 8, "comments", 0, "twice", 0, "pkgs", 1), TimeoutS: 1800})
 			return js
